@@ -323,7 +323,7 @@ def check():
             else:
                 o.inconc("UNCONFIRMED: %s depend(s) on a seed but %d fresh oal-cli processes produced identical bytes for every program" % (entry_dep, 6))
         elif diffs:
-            o.inconc("translator validation failed: oal-cli output differs between runs (%s) although no function on the pipeline depends on a seed" % diffs[:2])
+            o.oracle_only("oal-cli output differs between runs (%s) although no function on the pipeline depends on a seed" % diffs[:2], rdir)
     return o.finish()
 
 
